@@ -24,6 +24,27 @@ KNOWN = VERIF + '/known_findings.json'
 FOUND = VERIF + '/replays/found'
 REGRESS = VERIF + '/replays/regress'
 EVID = VERIF + '/evidence'
+# Sensitivity experiments only (never used by the registered commands): run the
+# same machinery against a scratch copy of the repository, with all build
+# output, evidence and replays kept under a scratch root.
+ALT_REPO = os.environ.get('VERIF_REPO')
+if ALT_REPO:
+    SCRATCH = os.environ.get('VERIF_SCRATCH') or (ALT_REPO.rstrip('/') + '.verif')
+    TGT = SCRATCH + '/target'
+    FOUND = SCRATCH + '/found'
+    EVID = SCRATCH + '/evidence'
+    os.makedirs(SCRATCH + '/sim', exist_ok=True)
+    with open(SCRATCH + '/sim/Cargo.toml', 'w') as _f:
+        _f.write(open(SIM + '/Cargo.toml').read().replace('path = "/repo"', 'path = "%s"' % ALT_REPO))
+    for _n in ('Cargo.lock',):
+        with open(SCRATCH + '/sim/' + _n, 'w') as _f:
+            _f.write(open(SIM + '/' + _n).read())
+    os.makedirs(SCRATCH + '/sim/.cargo', exist_ok=True)
+    with open(SCRATCH + '/sim/.cargo/config.toml', 'w') as _f:
+        _f.write(open(SIM + '/.cargo/config.toml').read())
+    if not os.path.exists(SCRATCH + '/sim/src'):
+        os.symlink(SIM + '/src', SCRATCH + '/sim/src')
+    SIM = SCRATCH + '/sim'
 PARTS = EVID + '/parts'
 SEED = int(os.environ.get('VERIF_SEED', '1') or '1')
 THREADS = int(os.environ.get('VERIF_THREADS', str(os.cpu_count() or 4)))
@@ -313,6 +334,7 @@ def check(prop, tier):
         os.remove(f)
     if prop == 'C17':
         import xcfg
+        xcfg.configure(FOUND, EVID)
         return xcfg.run(tier, SEED, THREADS, ev_path, SCALE, build)
     c = Check(prop, tier)
     c.native = build('native')
